@@ -267,6 +267,33 @@ def root_causes(sets_reply):
     return toks
 
 
+def printed_name(ix, it):
+    return "%s.%s" % (ix.prog.pkgmap[it["pkg"]]["name"], it.get("fn", "Prov%d" % it["id"]))
+
+
+def ambiguous_funcs(ix):
+    """ids of provider functions whose printed name (package *name* + function name) another provider function of
+    the unit shares: the unused-provider diagnostic cannot tell them apart"""
+    by = {}
+    for it in ix.u.items:
+        if it["kind"] == "func" and it.get("pkg"):
+            by.setdefault(printed_name(ix, it), []).append(it["id"])
+    return {i: n for n, ids in by.items() if len(ids) > 1 for i in ids}
+
+
+def norm_unused(ix, reply):
+    """replace unusedprov:<id> by unusedprov:?<printed name> where the diagnostic is ambiguous"""
+    amb = ambiguous_funcs(ix)
+    if not amb:
+        return reply
+    out = []
+    for w in reply.split():
+        if w.startswith("unusedprov:") and w[11:].isdigit() and int(w[11:]) in amb:
+            w = "unusedprov:?" + amb[int(w[11:])]
+        out.append(w)
+    return " ".join(out)
+
+
 def norm_err(reply):
     """errors compared as sets at this tier (wire repeats the diagnostics of a nested set once per
     path that reaches it)"""
